@@ -605,3 +605,12 @@ package notify
 //@   at call Notifier).Notify assert [the-whole-batch-goes-to-the-notifier-once] arg2 == alerts && arg0 == i.notifier && count("Notifier).Notify") == 0
 //@   ensures [the-notifier_s-verdict-is-the-integration_s] count("Notifier).Notify") == 1 && result0 == ret("Notifier).Notify") && result1 == ret1("Notifier).Notify")
 //@   noeffect Notifier).Notify
+
+// ---- C20: what the templates are given is built from the values the flush put into the context - the receiver, the
+// group's labels, the route labels - and from exactly the batch handed in.
+//@ func GetTemplateData
+//@   props C20
+//@   nosafe
+//@   at call Template).Data assert [from-the-flush_s-context-and-the-whole-batch] arg0 == tmpl && arg1 == ret("notify.ReceiverName$") && arg2 == ret("notify.GroupLabels$") && arg3 == ret("notify.RouteLabels$") && arg5 == alerts
+//@   ensures [built-once-and-returned] count("Template).Data") == 1 && result == ret("Template).Data")
+//@   noeffect notify.ReceiverName$ notify.GroupLabels$ notify.RouteLabels$ notify.NotificationReason$ Template).Data MarkRouteLabelsRendered
